@@ -49,17 +49,17 @@ CLAIMS = {
             "Decides: stored word = target offset - own slot and the readers apply the inverse (R08); an aliasing offset is stored only for an object of the same buffer or one constructed in it (G4); None arm writes the reserved constants and readers test them before arithmetic; recorded member index and constructed member derive from one key; growth preserves offsets (GR) and nobody caches native storage (NC). The reference writers and readers are evaluated for every documented value kind (R14: alias only inside the holder's buffer, new object otherwise, relative encoding, reserved null, member id, refusal of non-members); plain data assigned to a reference never writes through to the old referent (R12).",
             "Liveness of targets over histories; type-name based aliasing against same-named foreign classes.", "4.C08"),
     "C09": ("dominance of the _has_refs guard over every whole-object byte copy, propagation of _has_refs, fresh-allocation rule",
-            "Decides: a raw byte copy is reachable only for reference-free types (G1) and _has_refs is True for both reference kinds and the OR over inner types in both container metaclasses (G1b); reference writers alias only same-buffer objects (G4); constructors allocate the planned size and write into that allocation (R09); cross-context dispatch of update_from_xbuffer (B3). Field-wise struct copies are placed per the documented layout (L2c); shared handle caches are never edited in place (M3); bulk copies of python attributes between hybrid handles are re-validated against the destination's storage (H6); _has_refs propagation is evaluated on the metaclasses (G1b).",
+            "Decides: a raw byte copy is reachable only for reference-free types (G1) and _has_refs is True for both reference kinds and the OR over inner types in both container metaclasses (G1b); reference writers alias only same-buffer objects (G4); each constructor (struct, struct from an object elsewhere, array by value / by length, string, union) is evaluated: one allocation of the planned size before any write, every write inside it, the new object views it (R09); cross-context dispatch of update_from_xbuffer (B3). Field-wise struct copies are placed per the documented layout (L2c); shared handle caches are never edited in place (M3); bulk copies of python attributes between hybrid handles are re-validated against the destination's storage (H6); _has_refs propagation is evaluated on the metaclasses (G1b).",
             "Value equality and storage disjointness of concrete copies.", "4.C09"),
     "C10": ("locator normal-form equality, dispatch exhaustiveness, capacity guards",
-            "Decides: get, set and offset-of share one index->offset form, fields go through one locator (R10); compounds are updated through their own _update and leaves are written at the located offset; only fitting values can be written (G2); byte copies only without references (G1). Assignment dispatch per kind of part (R12), partial struct updates write exactly the named fields (R15), string write extents (L6), no memoised views (M4), shared caches not edited in place (M3).",
+            "Decides: for every in-range index of 1-D/2-D arrays (C/F order, static/dynamic shape, leaf/compound/dynamic items) offset-of = read position = write position = the place where construction stored that item (R10e, evaluated), fields go through one locator (R10, L2); cached part offsets are re-read after a rewrite that can move parts (R10r); compounds are updated through their own _update and leaves are written at the located offset; only fitting values can be written (G2); byte copies only without references (G1). Assignment dispatch per kind of part (R12), partial struct updates write exactly the named fields (R15), string write extents (L6), no memoised views (M4), shared caches not edited in place (M3).",
             "That all other elements keep their values over a history.", "4.C10"),
     "C11": ("raising guard dominates the effect, per misuse class; refusal-precedes-mutation by may-follow analysis",
-            "Decides for each misuse class of the statement that a raising guard with the stated condition dominates the effect (R11: index bound, update length and shape, construction shape, union membership, foreign-context buffer, offset without buffer), the bound check dominates every locator (G3), capacity comparison precedes every in-place rewrite (G2), and no refusal is reachable after a mutation in functions that rewrite existing objects (G5). Shape/rank/arity refusals are evaluated for every array descriptor (R13), union non-members by evaluation of the writer (R14), string capacity from encoded bytes (L6).",
+            "Decides for each misuse class of the statement that a raising guard with the stated condition dominates the effect (R11: index bound, update length and shape, construction shape, union membership; allocate_on_buffer is evaluated on recording contexts/buffers for 18 argument combinations: offset without buffer and foreign-context buffer refused before a buffer is created / anything allocated, placement modes, explicit offsets used as given), every Array accessor refuses an out-of-range index before any read or write (G3e, evaluated), the bound check dominates every locator (G3), capacity comparison precedes every in-place rewrite (G2), and no refusal is reachable after a mutation in functions that rewrite existing objects (G5). Shape/rank/arity refusals are evaluated for every array descriptor (R13), union non-members by evaluation of the writer (R14), string capacity from encoded bytes (L6).",
             "'Every existing object unchanged' on concrete buffers; misuse classes not enumerated by the statement.", "4.C11"),
     "C12": CLAIMS_C12,
     "C13": ("slice extent normal forms for 3 buffer classes x 9 primitives, copy-vs-view table, context dispatch, sibling signatures",
-            "Decides: every slice of a copy primitive is [lo : lo+n] with the documented offset parameter and one common length (B1, incl. the never-executed BufferCupy), dtype conversion precedes the byte transfer, extracting primitives copy and viewing primitives alias (B2), update_from_xbuffer dispatch (B3), sibling signature agreement (B4), scalar helpers built on them (SC), _new_buffer size (NB). Copy/view classification of every extracting/viewing primitive by an abstract alias domain over the native storage (B2).",
+            "Decides: every slice of a copy primitive is [lo : lo+n] with the documented offset parameter and one common length (B1, incl. the never-executed BufferCupy), dtype conversion precedes the byte transfer, extracting primitives copy and viewing primitives alias (B2), update_from_xbuffer evaluated on recording buffers of the same / of another context (B3), sibling signature agreement (B4), the four scalar helpers of each of the 10 scalar types evaluated against a recording model of np.dtype/np.frombuffer (SC), _new_buffer size (NB). Copy/view classification of every extracting/viewing primitive by an abstract alias domain over the native storage (B2).",
             "Byte images on concrete buffers; dtype conversion values.", "4.C13"),
     "C14": ("flag-consumption by dominance, exhaustiveness of dependency collection, uniqueness analysis of the Kahn frontier, order-of-use",
             "Decides: the cycle flag reaches a raise before any return (D1); dependency collection covers every container kind and closes transitively (D2); the two frontier sources of topological_sort are disjoint and the Kahn bookkeeping emits a node exactly when its last dependency was emitted (D4); the sorted list is used in order for API sources and cdefs, headers precede class sources precede user sources in all three contexts (D5); include guards when the template rules are present. No generator memoises its result on the class through an inheritance-following lookup (D6); the zoo's API has each accessor exactly once (T4.once).",
@@ -68,19 +68,19 @@ CLAIMS = {
             "Decides: target substitution only touches qualifier placeholders (S8), every pointer type of every emitted template carries the global-memory placeholder (T6), function qualifier (T7), target integer typedef widths (S10).",
             "Acceptance by a host C compiler.", "4.C15"),
     "C16": ("abstract evaluation of the specialiser per target and line class, ceil-division idiom table for the launch geometry",
-            "Decides: launch geometry (K6: CUDA grid = ceil(n/block) blocks, OpenCL global size n, n resolved from the named argument) and, when the specialiser rules S1-S9 are present in the rule list, the per-target loop/guard templates, brace balance, context-restricted lines, include splice and pass-through. One OpenMP predicate selects the specialisation target, omp.h, -fopenmp and omp_set_num_threads (S10.target); line classes are crossed with their origin (plain / included file).",
+            "Decides: launch geometry by evaluation of both launchers with recording device functions (K6: CUDA grid x block covers n with block = block_size, OpenCL global size exactly n, n given as a constant or as the name of an argument, n around multiples of the block size) and, when the specialiser rules S1-S9 are present in the rule list, the per-target loop/guard templates, brace balance, context-restricted lines, include splice and pass-through. One OpenMP predicate selects the specialisation target, omp.h, -fopenmp and omp_set_num_threads (S10.target); line classes are crossed with their origin (plain / included file).",
             "Results for concrete n on devices.", "4.C16"),
     "C17": ("linear normal form of pointer derivation, type-derivation rules, refusal guards, table oracle",
             "Decides: xobjects are passed as address(current storage)+current offset typed by the declared class (K1), ndarrays as a pointer to their first element typed from their own dtype, xobject arrays from offset+data offset typed from their item type (K2), dtype<->C tables (T5/K3), positional refusal, arity check before conversion, declared order, identity return, cffi signature (K4), no cached native storage (NC). The ndarray pointer is derived from the caller's array itself, never through a call that may copy (K1.ndarray.nocopy); the cffi signature is evaluated on abstract kernels (K4.cdef).",
             "Exact values through cffi; the arity check is an assert (stripped by python -O).", "4.C17"),
-    "C18": ("refusal guards and ordering, ownership-mark pairing, name-space typing of rename maps, view-restoration ordering",
-            "Decides: move refusals and their order w.r.t. reconstruction (H1), every stored dressed child is marked non-movable and views the container's field, _xobject restored after the python-side copy (H2), name-space typing xo/py of every field-name use (H4), reads go through the buffer (H5), cross-buffer reference refusal precedes the write (G5h). Bulk attribute copies between hybrid handles are re-validated (H6: nested parts rebuilt, dressed referents dropped unless they view the referent); the data copy of a by-value assignment is skipped only for the same buffer AND offset (H7).",
-            "Mirror/sync behaviour over histories; value equality after copy/move.", "4.C18"),
-    "C19": ("guard polarity normalisation, key-space typing, producer/consumer form agreement",
-            "Decides: the plain-value store of to_dict is reached exactly under an inequality with the declared default (J1), defaults have a single source shared with the constructor (J2), both sides of the defaults lookup live in one name space (H4), JSON producer forms match what the constructors consume (J3). to_dict elision is decided on paths: every path that stores nothing carries the fact value == declared default (J1).",
-            "Value equality of rebuilt objects; multi-dimensional arrays.", "4.C19"),
+    "C18": ("abstract interpretation of the dressing layer (metaclass, descriptors, xoinitialize, _reinit_from_xobject, move, copy, struct/ref writers) on an abstract memory over every bounded history of {set, nested assignment, reference assignment, construct, copy, move, state round trip, buffer growth}; refusal predicate as a truth table; name-space typing of rename maps",
+            "Decides by evaluation of the current source (HV): after every step of every history of length <= 2 (quick) / <= 4 (thorough) over 22 operations on a class zoo with nested, renamed, reference and array fields, every nested dressed object views exactly the bytes of its field, every reference attribute views the referent the stored word points to, every scalar attribute reads its field's slot, every array attribute is a view of the array data in the current storage; a by-value assignment copies exactly the object's bytes to the field and leaves the value where it was; copy/move allocate the object's size and copy its bytes; references are shared inside one buffer and refused across buffers before any write; move of a nested part, of an object holding references and of a referenced object is refused before any write. Also: move refusals and their order w.r.t. reconstruction (H1), every stored dressed child is marked non-movable and views the container's field, _xobject restored after the python-side copy (H2), name-space typing xo/py of every field-name use (H4), reads go through the buffer (H5), cross-buffer reference refusal precedes the write (G5h). Bulk attribute copies between hybrid handles are re-validated (H6: nested parts rebuilt, dressed referents dropped unless they view the referent); the data copy of a by-value assignment is skipped only for the same buffer AND offset (H7).",
+            "Histories longer than the bound or over other class shapes than the zoo (dynamic-size fields, N-d arrays, UnionRef fields); value equality of concrete bytes after copy/move (decided only as 'exactly the object's bytes are copied from its place'); the python-side attribute preservation.", "4.C18, 10.12"),
+    "C19": ("abstract interpretation of to_dict/from_dict on nested, renamed, default and default-factory fields over value assignments {default, other}^9; evaluation of Field.get_default/value_from_args and of the JSON producers/consumers; guard polarity normalisation, key-space typing",
+            "Decides by evaluation of the current source (JD): for Top{t default, u, mid: Mid{m default, renamed nested Leaf}, renamed Leaf} with Leaf{x, renamed y default 3, z default_factory} and every scalar set to its declared default or to another value (quick 20 assignments, thorough all 512) the dictionary holds exactly the scalars that differ from their declared default, to_dict leaves the object unchanged, and every scalar of from_dict(to_dict()) reads the original's value. Also: the plain-value store of to_dict is reached exactly under an inequality with the declared default (J1), defaults have a single source shared with the constructor (J2), both sides of the defaults lookup live in one name space (H4), JSON producer forms match what the constructors consume (J3). to_dict elision is decided on paths: every path that stores nothing carries the fact value == declared default (J1).",
+            "Array- and string-valued hybrid fields, reference fields, classes outside the evaluated zoo; value equality is decided on the abstract words (number identity), not on numpy dtype conversion; multi-dimensional arrays.", "4.C19, 10.12"),
     "C20": ("must-assign dataflow over materialisers, alias analysis of __getstate__, protocol pairing census",
-            "Decides: __setstate__ restores every cache the view materialiser establishes, no class defines half of the pickle protocol (M1); state is the buffer object itself plus offset, __getstate__ edits only a copy of the instance dict, contexts restore what they drop, buffers keep complete allocator state (P1). The state round trip of the current __getstate__/__setstate__ (or the default protocol) is evaluated for every array and struct descriptor and compared with a view (PS).",
+            "Decides: __setstate__ restores every cache the view materialiser establishes, no class defines half of the pickle protocol (M1); state is the buffer object itself plus offset, __getstate__ edits only a copy of the instance dict, contexts restore what they drop, buffers keep complete allocator state (P1). The state round trip of the current __getstate__/__setstate__ (or the default protocol) is evaluated for every array and struct descriptor and compared with a view (PS). Hybrid handles restored through __getstate__/__setstate__ view the same place and are fully dressed, after every history of HV (see C18); the context state methods are evaluated on an instance with registry, kernels and plain attributes (P1.P2/P3).",
             "Usability/equality of concrete unpickled objects; importability of classes.", "4.C20"),
 }
 
